@@ -69,7 +69,8 @@ def bit_order(prog: Program) -> RuleResult:
         if len(loops) != 1:
             raise AnalysisError(f"{fname}: expected one scanning loop")
         loop = loops[0]
-        masks = [p for p in func_params(fn) if (p in ("child", "parent") and fname == "subseq_segment_dist") or (p == "child" and fname == "subseq_from_mask")]
+        fparams = func_params(fn)
+        masks = fparams[:2] if fname == "subseq_segment_dist" else fparams[:1]
         problems = []
         for m in masks:
             tests = [
@@ -86,7 +87,7 @@ def bit_order(prog: Program) -> RuleResult:
                 problems.append(f"`{m}` is not shifted right by exactly one bit at the top level of every iteration")
         if fname == "subseq_from_mask":
             idx_updates = [st for st in loop.body if isinstance(st, ast.AugAssign) and isinstance(st.op, ast.Add) and isinstance(st.value, ast.Constant) and st.value.value == 1]
-            reads = [n for n in ast.walk(loop) if isinstance(n, ast.Subscript) and dotted(n.value) == "parent"]
+            reads = [n for n in ast.walk(loop) if isinstance(n, ast.Subscript) and dotted(n.value) == fparams[1]]
             if len(idx_updates) != 1 or not reads or any(dotted(r.slice) != dotted(idx_updates[0].target) for r in reads):
                 problems.append("the element index does not advance by one on every iteration (it must follow the bit position, not the number of set bits)")
             else:
@@ -198,6 +199,7 @@ def segment_machine(prog: Program) -> RuleResult:
     if len(loops) != 1:
         raise AnalysisError("subseq_segment_dist: expected one scanning loop")
     loop = loops[0]
+    p_child, p_parent, p_edges = (func_params(fn) + [None, None, None])[:3]
     pos = fn.body.index(loop)
     pre, post = fn.body[:pos], fn.body[pos + 1:]
     # names: the run flag and the counter are the variables assigned before the loop
@@ -207,7 +209,7 @@ def segment_machine(prog: Program) -> RuleResult:
     # which one is Boolean? evaluate the initialisation for edges = True
     bad: List[str] = []
     for edges in (True, False):
-        env: Dict[str, object] = {"edges": edges}
+        env: Dict[str, object] = {p_edges: edges}
         try:
             _exec([st for st in pre if isinstance(st, ast.Assign)], env)
         except _Abort:
@@ -232,7 +234,7 @@ def segment_machine(prog: Program) -> RuleResult:
         if isinstance(st, ast.Assign) and isinstance(st.value, ast.BinOp) and isinstance(st.value.op, ast.BitAnd):
             bits.append((st.targets[0].id, dotted(st.value.left)))
     names = {mask: var for var, mask in bits}
-    if set(names) != {"child", "parent"}:
+    if set(names) != {p_child, p_parent}:
         raise AnalysisError("subseq_segment_dist: bit extraction `x = mask & 1` for child and parent not found")
     spec = {}
     for in_run, bp, bc in itertools.product((False, True), repeat=3):
@@ -246,7 +248,7 @@ def segment_machine(prog: Program) -> RuleResult:
             spec[(in_run, bp, bc)] = (in_run, 0)
     mism = []
     for (in_run, bp, bc), want in spec.items():
-        env = {"edges": True, flag: in_run, counter: 0, "bit:child": int(bc), "bit:parent": int(bp)}
+        env = {p_edges: True, flag: in_run, counter: 0, f"bit:{p_child}": int(bc), f"bit:{p_parent}": int(bp)}
         try:
             _exec(loop.body, env)
             got = (env[flag], env[counter])
@@ -263,7 +265,7 @@ def segment_machine(prog: Program) -> RuleResult:
     construct = f"{SUBSEQ}:subseq_segment_dist/final"
     bad = []
     for edges, in_run in itertools.product((True, False), repeat=2):
-        env = {"edges": edges, flag: in_run, counter: 5}
+        env = {p_edges: edges, flag: in_run, counter: 5}
         try:
             _exec(post, env)
             got = None
@@ -281,11 +283,11 @@ def segment_machine(prog: Program) -> RuleResult:
     it = loop.iter if isinstance(loop, ast.For) else None
     ok_len = (
         isinstance(it, ast.Call) and dotted(it.func) == "range" and len(it.args) == 1
-        and isinstance(it.args[0], ast.Call) and dotted(it.args[0].func) == "parent.bit_length"
+        and isinstance(it.args[0], ast.Call) and dotted(it.args[0].func) == f"{p_parent}.bit_length"
     )
     longer = any(
         isinstance(st, ast.If) and isinstance(st.test, ast.Compare)
-        and {dotted(getattr(st.test.left, "func", st.test.left)), dotted(getattr(st.test.comparators[0], "func", st.test.comparators[0]))} == {"parent.bit_length", "child.bit_length"}
+        and {dotted(getattr(st.test.left, "func", st.test.left)), dotted(getattr(st.test.comparators[0], "func", st.test.comparators[0]))} == {f"{p_parent}.bit_length", f"{p_child}.bit_length"}
         for st in pre
     )
     if ok_len and longer:
